@@ -130,3 +130,149 @@ Print Assumptions C12_avx2_bswap_lanewise.
 Print Assumptions C12_avx2_lane_shuffle_is_perm.
 Print Assumptions C12_sse_u128x1_rotr_lanewise.
 Print Assumptions C12_sse_u128x1_swap_is_bitgroup_swap.
+
+(* ---- added by work package ppv-wide: composed statements for the x86 wide types ---- *)
+From CC Require Model.PpvSoft Model.PpvSoftAssign.
+From CC Require Import Proofs.PpvWideLift Proofs.PpvWideSse Proofs.PpvWideAvx2 Proofs.PpvWideTie.
+
+(** x86 wide types (soft.rs x2<W,G> / x4<W> over one-register types): a value is the list [v] of its
+    registers, [wide16 n v] = [n] well-formed 16-byte registers ([n] = 2: u32x4x2_sse2, u64x2x2_sse2,
+    u64x4_sse2, u128x2_sse2; [n] = 4: u32x4x4_sse2, u64x2x4_sse2, u128x4_sse2), [wide32 2 v] = two
+    32-byte registers (u32x4x4_avx2); the byte image is [concat v]. [xn_unop f] / [xn_binop f] is the
+    wrapper applied to the element method [f] (Model/PpvSse.v), proved equal to the soft.rs model
+    (Model/PpvSoft.v, Model/PpvSoftAssign.v) in [C12_x86_soft_wrappers_agree]. *)
+Theorem C12_sse_wide_add_lanewise : forall n a b, wide16 n a -> wide16 n b ->
+  concat (xn_binop u32x4_add a b)
+    = bytes_le 4 (v_add 32 (words_le 4 (concat a)) (words_le 4 (concat b))) /\
+  concat (xn_binop u64x2_add a b)
+    = bytes_le 8 (v_add 64 (words_le 8 (concat a)) (words_le 8 (concat b))).
+Proof. exact sse_wide_add_lanewise. Qed.
+
+Theorem C12_sse_wide_bitops_lanewise : forall k n a b, In k [4; 8; 16]%nat -> wide16 n a -> wide16 n b ->
+  concat (xn_binop sse_xor a b) = bytes_le k (v_xor (words_le k (concat a)) (words_le k (concat b))) /\
+  concat (xn_binop sse_and a b) = bytes_le k (v_and (words_le k (concat a)) (words_le k (concat b))) /\
+  concat (xn_binop sse_or a b) = bytes_le k (v_or (words_le k (concat a)) (words_le k (concat b))) /\
+  concat (xn_unop sse_not a) = bytes_le k (v_not (8 * N.of_nat k) (words_le k (concat a))) /\
+  concat (xn_binop sse_andnot a b)
+    = bytes_le k (v_andnot (8 * N.of_nat k) (words_le k (concat a)) (words_le k (concat b))).
+Proof. exact sse_wide_bitops_lanewise. Qed.
+
+Theorem C12_sse_wide_u32_rotr_lanewise : forall s3 k n v,
+  In k [7; 8; 11; 12; 16; 20; 24; 25] -> wide16 n v ->
+  concat (xn_unop (u32x4_rotr s3 k) v) = bytes_le 4 (v_rotr 32 k (words_le 4 (concat v))).
+Proof. exact sse_wide_u32_rotr_lanewise. Qed.
+Theorem C12_sse_wide_u64_rotr_lanewise : forall s3 k n v,
+  In k [7; 8; 11; 12; 16; 20; 24; 25; 32] -> wide16 n v ->
+  concat (xn_unop (u64x2_rotr s3 k) v) = bytes_le 8 (v_rotr 64 k (words_le 8 (concat v))).
+Proof. exact sse_wide_u64_rotr_lanewise. Qed.
+Theorem C12_sse_wide_u128_rotr_lanewise : forall k n v,
+  In k [7; 8; 11; 12; 16; 20; 24; 25; 32] -> wide16 n v ->
+  concat (xn_unop (u128x1_rotr k) v) = bytes_le 16 (v_rotr 128 k (words_le 16 (concat v))).
+Proof. exact sse_wide_u128_rotr_lanewise. Qed.
+
+Theorem C12_sse_wide_bswap_lanewise : forall s3 n v, wide16 n v ->
+  concat (xn_unop (u32x4_bswap s3) v) = bytes_le 4 (v_bswap 32 (words_le 4 (concat v))) /\
+  concat (xn_unop (u64x2_bswap s3) v) = bytes_le 8 (v_bswap 64 (words_le 8 (concat v))) /\
+  concat (xn_unop (u128x1_bswap s3) v) = bytes_le 16 (v_bswap 128 (words_le 16 (concat v))).
+Proof. exact sse_wide_bswap_lanewise. Qed.
+
+Theorem C12_sse_wide_lane_shuffle_is_perm : forall n v, wide16 n v ->
+  concat (xn_unop u32x4_shuffle1230 v) = bytes_le 4 (per_lane4 shuffle1230 (words_le 4 (concat v))) /\
+  concat (xn_unop u32x4_shuffle2301 v) = bytes_le 4 (per_lane4 shuffle2301 (words_le 4 (concat v))) /\
+  concat (xn_unop u32x4_shuffle3012 v) = bytes_le 4 (per_lane4 shuffle3012 (words_le 4 (concat v))).
+Proof. exact sse_wide_lane_shuffle_is_perm. Qed.
+
+Theorem C12_sse_wide_u128_swap_is_bitgroup_swap : forall s3 m n v,
+  In m [1; 2; 4; 8; 16; 32; 64] -> wide16 n v ->
+  concat (xn_unop (u128x1_swap s3 m) v) = bytes_le 16 (v_swap m 128 (words_le 16 (concat v))) /\
+  (forall (i : nat) j, (i < n)%nat -> j < 128 ->
+     N.testbit (nth i (words_le 16 (concat (xn_unop (u128x1_swap s3 m) v))) 0) j
+     = N.testbit (nth i (words_le 16 (concat v)) 0) (N.lxor j m)).
+Proof. exact sse_wide_u128_swap_is_bitgroup_swap. Qed.
+
+(** u32x4x4_avx2 = x2<u32x4x2_avx2, G0> *)
+Theorem C12_avx2_wide_add_lanewise : forall n a b, wide32 n a -> wide32 n b ->
+  concat (xn_binop avx2_add a b) = bytes_le 4 (v_add 32 (words_le 4 (concat a)) (words_le 4 (concat b))).
+Proof. exact avx2_wide_add_lanewise. Qed.
+Theorem C12_avx2_wide_bitops_lanewise : forall n a b, wide32 n a -> wide32 n b ->
+  concat (xn_binop avx2_xor a b) = bytes_le 4 (v_xor (words_le 4 (concat a)) (words_le 4 (concat b))) /\
+  concat (xn_binop avx2_and a b) = bytes_le 4 (v_and (words_le 4 (concat a)) (words_le 4 (concat b))) /\
+  concat (xn_binop avx2_or a b) = bytes_le 4 (v_or (words_le 4 (concat a)) (words_le 4 (concat b))) /\
+  concat (xn_unop avx2_not a) = bytes_le 4 (v_not 32 (words_le 4 (concat a))) /\
+  concat (xn_binop avx2_andnot a b) = bytes_le 4 (v_andnot 32 (words_le 4 (concat a)) (words_le 4 (concat b))).
+Proof. exact avx2_wide_bitops_lanewise. Qed.
+Theorem C12_avx2_wide_rotr_lanewise : forall k n v,
+  In k [7; 8; 11; 12; 16; 20; 24; 25] -> wide32 n v ->
+  concat (xn_unop (avx2_rotr k) v) = bytes_le 4 (v_rotr 32 k (words_le 4 (concat v))).
+Proof. exact avx2_wide_rotr_lanewise. Qed.
+Theorem C12_avx2_wide_bswap_lanewise : forall n v, wide32 n v ->
+  concat (xn_unop avx2_bswap v) = bytes_le 4 (v_bswap 32 (words_le 4 (concat v))).
+Proof. exact avx2_wide_bswap_lanewise. Qed.
+Theorem C12_avx2_wide_lane_shuffle_is_perm : forall n v, wide32 n v ->
+  concat (xn_unop avx2_shuffle_lane_words1230 v) = bytes_le 4 (per_lane4 shuffle1230 (words_le 4 (concat v))) /\
+  concat (xn_unop avx2_shuffle_lane_words2301 v) = bytes_le 4 (per_lane4 shuffle2301 (words_le 4 (concat v))) /\
+  concat (xn_unop avx2_shuffle_lane_words3012 v) = bytes_le 4 (per_lane4 shuffle3012 (words_le 4 (concat v))).
+Proof. exact avx2_wide_lane_shuffle_is_perm. Qed.
+
+(** the x86 copy of the soft.rs wrappers = the soft.rs model at the register element type, for every
+    (total) element method [f]; [ok1 f], [ok2 f] = [f] as a method that returns; the assign macros
+    (fwd_binop_assign_x2!/x4!, Model/PpvSoftAssign.v) with the element assign [*self = self.f(rhs)] *)
+Theorem C12_x86_soft_wrappers_agree : forall (W : Type) (d : W),
+  (forall (f : W -> W) v, length v = 2%nat ->
+     PpvSoft.x2_unop d (PpvSoftAssign.ok1 f) v = PpvSoft.Ok (xn_unop f v)) /\
+  (forall (f : W -> W) v, length v = 4%nat ->
+     PpvSoft.x4_unop d (PpvSoftAssign.ok1 f) v = PpvSoft.Ok (xn_unop f v)) /\
+  (forall (f : W -> W -> W) a b, length a = 2%nat -> length b = 2%nat ->
+     PpvSoft.x2_binop d (PpvSoftAssign.ok2 f) a b = PpvSoft.Ok (xn_binop f a b) /\
+     PpvSoftAssign.x2_binop_assign d (PpvSoftAssign.elem_assign (PpvSoftAssign.ok2 f)) a b
+       = PpvSoft.Ok (xn_binop f a b)) /\
+  (forall (f : W -> W -> W) a b, length a = 4%nat -> length b = 4%nat ->
+     PpvSoft.x4_binop d (PpvSoftAssign.ok2 f) a b = PpvSoft.Ok (xn_binop f a b) /\
+     PpvSoftAssign.x4_binop_assign d (PpvSoftAssign.elem_assign (PpvSoftAssign.ok2 f)) a b
+       = PpvSoft.Ok (xn_binop f a b)).
+Proof. exact x86_soft_ops_agree. Qed.
+
+(** [+=], [^=], [|=], [&=] of the x86 wide types through the assign macros: lane-wise meaning *)
+Theorem C12_sse_wide_assign_lanewise : forall k a b, In k [4; 8; 16]%nat ->
+  (wide16 2 a -> wide16 2 b ->
+   let asg f := PpvSoft.omapo (@concat N)
+                  (PpvSoftAssign.x2_binop_assign [] (PpvSoftAssign.elem_assign (PpvSoftAssign.ok2 f)) a b) in
+   asg u32x4_add = PpvSoft.Ok (bytes_le 4 (v_add 32 (words_le 4 (concat a)) (words_le 4 (concat b)))) /\
+   asg u64x2_add = PpvSoft.Ok (bytes_le 8 (v_add 64 (words_le 8 (concat a)) (words_le 8 (concat b)))) /\
+   asg sse_xor = PpvSoft.Ok (bytes_le k (v_xor (words_le k (concat a)) (words_le k (concat b)))) /\
+   asg sse_or = PpvSoft.Ok (bytes_le k (v_or (words_le k (concat a)) (words_le k (concat b)))) /\
+   asg sse_and = PpvSoft.Ok (bytes_le k (v_and (words_le k (concat a)) (words_le k (concat b))))) /\
+  (wide16 4 a -> wide16 4 b ->
+   let asg f := PpvSoft.omapo (@concat N)
+                  (PpvSoftAssign.x4_binop_assign [] (PpvSoftAssign.elem_assign (PpvSoftAssign.ok2 f)) a b) in
+   asg u32x4_add = PpvSoft.Ok (bytes_le 4 (v_add 32 (words_le 4 (concat a)) (words_le 4 (concat b)))) /\
+   asg u64x2_add = PpvSoft.Ok (bytes_le 8 (v_add 64 (words_le 8 (concat a)) (words_le 8 (concat b)))) /\
+   asg sse_xor = PpvSoft.Ok (bytes_le k (v_xor (words_le k (concat a)) (words_le k (concat b)))) /\
+   asg sse_or = PpvSoft.Ok (bytes_le k (v_or (words_le k (concat a)) (words_le k (concat b)))) /\
+   asg sse_and = PpvSoft.Ok (bytes_le k (v_and (words_le k (concat a)) (words_le k (concat b))))).
+Proof. exact sse_wide_assign_lanewise. Qed.
+Theorem C12_avx2_wide_assign_lanewise : forall a b, wide32 2 a -> wide32 2 b ->
+  let asg f := PpvSoft.omapo (@concat N)
+                 (PpvSoftAssign.x2_binop_assign [] (PpvSoftAssign.elem_assign (PpvSoftAssign.ok2 f)) a b) in
+  asg avx2_add = PpvSoft.Ok (bytes_le 4 (v_add 32 (words_le 4 (concat a)) (words_le 4 (concat b)))) /\
+  asg avx2_xor = PpvSoft.Ok (bytes_le 4 (v_xor (words_le 4 (concat a)) (words_le 4 (concat b)))) /\
+  asg avx2_or = PpvSoft.Ok (bytes_le 4 (v_or (words_le 4 (concat a)) (words_le 4 (concat b)))) /\
+  asg avx2_and = PpvSoft.Ok (bytes_le 4 (v_and (words_le 4 (concat a)) (words_le 4 (concat b)))).
+Proof. exact avx2_wide_assign_lanewise. Qed.
+
+Print Assumptions C12_sse_wide_add_lanewise.
+Print Assumptions C12_sse_wide_bitops_lanewise.
+Print Assumptions C12_sse_wide_u32_rotr_lanewise.
+Print Assumptions C12_sse_wide_u64_rotr_lanewise.
+Print Assumptions C12_sse_wide_u128_rotr_lanewise.
+Print Assumptions C12_sse_wide_bswap_lanewise.
+Print Assumptions C12_sse_wide_lane_shuffle_is_perm.
+Print Assumptions C12_sse_wide_u128_swap_is_bitgroup_swap.
+Print Assumptions C12_avx2_wide_add_lanewise.
+Print Assumptions C12_avx2_wide_bitops_lanewise.
+Print Assumptions C12_avx2_wide_rotr_lanewise.
+Print Assumptions C12_avx2_wide_bswap_lanewise.
+Print Assumptions C12_avx2_wide_lane_shuffle_is_perm.
+Print Assumptions C12_x86_soft_wrappers_agree.
+Print Assumptions C12_sse_wide_assign_lanewise.
+Print Assumptions C12_avx2_wide_assign_lanewise.
